@@ -132,9 +132,9 @@ BridgeFor(p) ==
       other == {q \in XferReq(IF k % 2 = 0 THEN od ELSE p[1].dim) : q.rule.deg >= 2 /\ ~Collide(p[1], q) /\ ~Collide(q, p[2])}
   IN CHOOSE q \in other : \A q2 \in other : Len(q.rule.name) + q.rule.pts <= Len(q2.rule.name) + q2.rule.pts
 H3Bridge == UNION {{<<Step(p[1], Hash(p[1], p[2]), FALSE), Step(BridgeFor(p), Hash(p[2], p[1]), TRUE), s>> : s \in Last(p[2], Hash(p[2], p[1]) + 1)} :
-                     p \in {x \in CollidingPairs : Hash(x[1], x[2]) % Mod([deep |-> 1, quick |-> 6]) = 0}}
+                     p \in {x \in CollidingPairs : Hash(x[1], x[2]) % Mod([deep |-> 2, quick |-> 6]) = 0}}
 \* three pairwise colliding requests
-CollidingTriples == UNION {{<<p[1], p[2], c>> : c \in {x \in Req(p[1].dim) : /\ (Hash(p[1], p[2]) + Hash(p[2], x)) % Mod([deep |-> 3, quick |-> 61]) = 0
+CollidingTriples == UNION {{<<p[1], p[2], c>> : c \in {x \in Req(p[1].dim) : /\ (Hash(p[1], p[2]) + Hash(p[2], x)) % Mod([deep |-> 12, quick |-> 61]) = 0
                                                                               /\ Collide(p[2], x) /\ Collide(p[1], x)}} : p \in CollidingPairs}
 H3Collide == UNION {{<<Step(t[1], Hash(t[1], t[2]), FALSE), Step(t[2], Hash(t[2], t[3]), TRUE), s>> : s \in Last(t[3], Hash(t[3], t[1]))} : t \in CollidingTriples}
 
